@@ -363,6 +363,9 @@ func (c *Chain) Project(ctx sdk.Context) map[string]any {
 		return false
 	})
 	st["burner"] = map[string]any{"epoch": a.BurnerKeeper.GetParams(ctx).EpochIdentifier, "denoms": bd}
+	if c.Registry {
+		st["params"] = c.projectParams(ctx)
+	}
 	return st
 }
 
